@@ -4,9 +4,9 @@ from ._generic import make, STD_TRUST
 globals().update(
     make(
         pid="C03",
-        props=["JaqalProofs/Props/C03.lean"],
-        targets=["JaqalProofs.Props.C03"],
-        diffs=[("harness.agents.emu_diff", 500, 6000)],
+        props=["JaqalProofs/Props/C03.lean", "JaqalProofs/Lemmas/WalkSerialize.lean"],
+        targets=["JaqalProofs.Props.C03", "JaqalProofs.Lemmas.WalkSerialize"],
+        diffs=[("harness.agents.emu_diff", 400, 4000), ("harness.agents.walk_diff", 600, 6000)],
         trusted=[
             STD_TRUST,
             "hand-written model JaqalModel/Model/Emulator.lean: the loop nest of UnitarySerializedEmulator._make_subcircuit transcribed step for step (rowMask / colIndex / applyGate / runGates), executable over Gaussian dyadic numbers",
